@@ -26,10 +26,16 @@ def rand_grid(rng, naxes=None, nmax=3):
                                                  "fill_value": NONE, "default_shifts": NONE}}
 
 
-def metric_entry(rng, grid, key, pos, name, lo=1, hi=4):
+def metric_entry(rng, grid, key, pos, name, lo=1, hi=4, foreign=0.0):
     axd = {a["name"]: a for a in grid["axes"]}
     dims = [dict(axd[a]["pos"])[p] for a, p in zip(key, pos)]
     shape = [plen(p, axd[a]["n"]) for a, p in zip(key, pos)]
+    for a in axd:
+        # a metric may also vary along axes it is not a metric of (dx(y, x))
+        if a not in key and rng.random() < foreign:
+            p, d = rng.choice(axd[a]["pos"])
+            dims.append(d)
+            shape.append(plen(p, axd[a]["n"]))
     order = list(range(len(dims)))
     rng.shuffle(order)
     dims = [dims[o] for o in order]
@@ -47,22 +53,47 @@ def rand_registry(rng, grid, nmax=5):
     for k in range(rng.randint(1, nmax)):
         key = rng.sample(axn, rng.choice([1, 1, 1, 2, 2, 3][: 2 * len(axn)]))
         pos = [rng.choice([p for p, _ in axd[a]["pos"]]) for a in key]
-        slot = (frozenset(key), frozenset(dict(axd[a]["pos"])[p] for a, p in zip(key, pos)))
+        e = metric_entry(rng, grid, key, pos, f"m{k + 1}", foreign=0.25)
+        slot = (frozenset(key), frozenset(e["dims"]))
         if slot in slots:
             continue
         slots.add(slot)
-        reg.append(metric_entry(rng, grid, key, pos, f"m{k + 1}"))
+        reg.append(e)
     return reg
+
+
+def partition_registry(rng, grid, adims):
+    """three axes: a two-axis block and all three single-axis metrics registered (largest block first matters)"""
+    axn = [a["name"] for a in grid["axes"]]
+    axd = {a["name"]: a for a in grid["axes"]}
+    apos = {a: next(p for p, d in axd[a]["pos"] if d in adims) for a in axn}
+    reg = []
+    pair = rng.sample(axn, 2)
+    n = 0
+    for key in [pair] + [[a] for a in axn] + ([rng.sample(axn, 2)] if rng.random() < 0.3 else []):
+        n += 1
+        pos = [apos[a] if rng.random() < 0.8 else rng.choice([p for p, _ in axd[a]["pos"]]) for a in key]
+        reg.append(metric_entry(rng, grid, key, pos, f"m{n}"))
+    uniq, seen = [], set()
+    for e in reg:
+        sl = (frozenset(e["key"]), frozenset(e["dims"]))
+        if sl not in seen:
+            seen.add(sl)
+            uniq.append(e)
+    rng.shuffle(uniq)
+    return uniq
 
 
 def gen_getmetric(rng, cid):
     while True:
-        grid = rand_grid(rng)
+        structured = rng.random() < 0.25
+        grid = rand_grid(rng, naxes=3 if structured else None, nmax=2 if structured else 3)
         reg = rand_registry(rng, grid)
         axn = [a["name"] for a in grid["axes"]]
         axd = {a["name"]: a for a in grid["axes"]}
-        req = rng.sample(axn, rng.randint(1, len(axn)))
-        have = list(req) + [a for a in axn if a not in req and rng.random() < 0.4]
+        req = rng.sample(axn, len(axn) if structured else rng.randint(1, len(axn)))
+        used = {a for e in reg for a in axn if set(e["dims"]) & {d for _, d in axd[a]["pos"]}}
+        have = list(req) + [a for a in axn if a not in req and (a in used or rng.random() < 0.4)]
         adims, ashape = [], []
         for a in have:
             p, d = rng.choice(axd[a]["pos"])
@@ -76,6 +107,8 @@ def gen_getmetric(rng, cid):
             size *= s
         if size > 40:
             continue
+        if structured:
+            reg = partition_registry(rng, grid, adims)
         return {"id": cid, "ev": "GetMetric", "grid": grid, "reg": reg, "adims": adims, "ashape": ashape, "axes": req}
 
 
@@ -176,7 +209,7 @@ def execute(case):
             rec["warned"] = any("being interpolated" in str(x.message) for x in w)
             if set(m.dims) <= set(arr.dims):
                 m = m.transpose(*[d for d in arr.dims if d in m.dims])
-            rec["out"] = model.encode_result(m, 2 ** len(case["axes"]), nm)
+            rec["out"] = model.encode_result(m, 1, nm, rational=True)
             return rec
         a = case["args"]
         da = model.make_array(a["data"], nm, ds, name="v1")
@@ -184,7 +217,7 @@ def execute(case):
         if a.get("axis_as_str") and len(axis) == 1:
             axis = axis[0]
         if ev == "Integrate":
-            rec["out"] = model.encode_result(grid.integrate(da, axis), 2 ** len(a["axis"]), nm)
+            rec["out"] = model.encode_result(grid.integrate(da, axis), 1, nm)
         elif ev == "Average":
             valid = np.array(a["valid"], dtype=bool).reshape(a["data"]["shape"])
             da = da.where(xr.DataArray(valid, dims=da.dims))
@@ -268,7 +301,7 @@ def run(ctx):
         r = next(x for x in recs if x["ev"] == ev)
         ctx.sample({k2: r[k2] for k2 in ("ev", "reg", "adims", "axes", "args", "out") if k2 in r})
     ctx.assumptions += ["integer metrics 1..4 and small integer data; averages/derivatives compared as exact rationals",
-                        "metric variables carry only dimensions of their own key axes",
+                        "the array carries every axis along which a registered metric varies",
                         "a warning that accompanies a non-interpolated answer is not constrained"]
 
 
